@@ -113,6 +113,10 @@ def evaluate(spec, res):
         return "inconclusive", res.status, []
     real_fail = [c for c in res.failed_checks if c["status"] == "FAILURE" and c["class"] != "unwind"]
     unwind_fail = [c for c in res.failed_checks if c["status"] == "FAILURE" and c["class"] == "unwind"]
+    hb = [c for c in real_fail if c["class"] == "harness-bug"]
+    if hb:
+        return "broken", "failing check inside harness code that is not an oracle assertion: %s at %s" % (
+            hb[0]["description"], hb[0]["location"]), []
     if kind == "holds":
         if res.status == "SUCCESS":
             bad = []
